@@ -70,6 +70,12 @@ class Interp:
         for p in ref.path:
             if isinstance(p, tuple) and p[0] == 'sym':
                 v = self.sym_lookup(v, p[1])
+            elif isinstance(p, tuple) and p[0] == 'nd':
+                if type(v).__name__ != 'Nd2':
+                    raise Unsupported('2-D index into %r' % (v,))
+                if p[1] >= len(v.rows) or p[2] >= v.ncols:
+                    raise Panic('ndarray-index', 'index (%d, %d) out of (%d, %d)' % (p[1], p[2], len(v.rows), v.ncols))
+                v = v.rows[p[1]][p[2]]
             elif isinstance(v, Agg):
                 if p >= len(v.fields):
                     raise Panic('BoundsCheck', 'index %d out of %d' % (p, len(v.fields)))
@@ -91,6 +97,13 @@ class Interp:
     def _set(self, v, path, val):
         if not path:
             return val
+        if isinstance(path[0], tuple) and path[0][0] == 'nd':
+            _, i, j = path[0]
+            if i >= len(v.rows) or j >= v.ncols:
+                raise Panic('ndarray-index', 'index (%d, %d) out of (%d, %d)' % (i, j, len(v.rows), v.ncols))
+            rows = [list(r) for r in v.rows]
+            rows[i][j] = self._set(rows[i][j], path[1:], val)
+            return type(v)(rows, v.ncols)
         if not isinstance(v, Agg):
             raise Unsupported('store through non-aggregate %r' % (v,))
         f = list(v.fields)
@@ -580,6 +593,11 @@ class Interp:
         m = self.overrides.get(name) or MODELS.get(name)
         if m is None and target_body is None:
             m = MODELS.get(cal.defname)      # trait-level model for a resolved library impl
+        if m is None and target_body is None and name:
+            for suf, mm in SUFFIX_MODELS.items():     # re-exported library items: the def path depends on the first `use`
+                if name.endswith(suf):
+                    m = mm
+                    break
         if m is not None:
             return m(self, args, t, cal)
         if target_body is not None:
@@ -660,6 +678,7 @@ def Operand_from(j):
 
 # ====================================================================== models
 MODELS = {}
+SUFFIX_MODELS = {}
 FALLBACK = {}
 
 
@@ -815,6 +834,8 @@ def m_not(I, a, t, c):
 def f_ne(I, a, t, c):
     if c.trait == 'std::cmp::PartialEq':
         x, y = deref_all(I, a[0]), deref_all(I, a[1])
+        if isinstance(x, StrV) and isinstance(y, StrV):
+            return bv_bool(list(x.chars) != list(y.chars))
         if isinstance(x, Agg) and isinstance(y, Agg):
             return bv_bool(not (x == y))
         if isinstance(x, BV) and isinstance(y, BV):
@@ -826,6 +847,8 @@ def f_ne(I, a, t, c):
 def f_eq(I, a, t, c):
     if c.trait == 'std::cmp::PartialEq':
         x, y = deref_all(I, a[0]), deref_all(I, a[1])
+        if isinstance(x, StrV) and isinstance(y, StrV):
+            return bv_bool(list(x.chars) == list(y.chars))
         if isinstance(x, Agg) and isinstance(y, Agg):
             return bv_bool(x == y)
         if isinstance(x, BV) and isinstance(y, BV):
@@ -988,6 +1011,8 @@ def m_into_iter(I, a, t, c):
     v = a[0]
     if isinstance(v, Agg) and v.kind in ('iter', 'adt:std::ops::Range'):
         return v
+    if type(v).__name__ == 'SetV':
+        return Agg('iter', 0, [list(v.d.values()), 0])
     if isinstance(v, Agg) and v.kind == 'array':
         return Agg('iter', 0, [list(v.fields), 0])
     if isinstance(v, RefV):
@@ -1407,3 +1432,780 @@ def m_vecref_into_iter(I, a, t, c):
     r = a[0]
     v = I.load(r)
     return Agg('iter', 0, [[RefV(r.cell, r.path + (i,)) for i in range(len(v.fields))], 0])
+
+
+# ====================================================================== ndarray (2-D u8 tables), HashSet, misc
+class Nd2:
+    """owned or viewed 2-D array: list of rows (python lists of values) + ncols"""
+    __slots__ = ('rows', 'ncols')
+
+    def __init__(self, rows, ncols):
+        self.rows = [list(r) for r in rows]
+        self.ncols = ncols
+
+    def __repr__(self):
+        return 'Nd2(%dx%d)' % (len(self.rows), self.ncols)
+
+    def __eq__(self, o):
+        return isinstance(o, Nd2) and self.rows == o.rows and self.ncols == o.ncols
+
+    def __hash__(self):
+        return hash((len(self.rows), self.ncols))
+
+
+def _nd(I, v):
+    v = deref_all(I, v)
+    if isinstance(v, Nd2):
+        return v
+    raise Unsupported('not a 2-D array: %r' % (v,))
+
+
+def _view1(vals):
+    """a fresh read-only 1-D view over the given values"""
+    return RefV(Cell(Agg('array', 0, list(vals)), 'view1'), (), (0, len(vals)))
+
+
+def _vals(I, v):
+    """values of a 1-D view / slice / Vec / array"""
+    return [deref_all(I, x) if isinstance(x, RefV) else x for x in _iter_items(I, v)]
+
+
+def _axis(I, v):
+    v = deref_all(I, v)
+    if isinstance(v, Agg) and v.kind.endswith('ndarray::Axis'):
+        return I.conc(v.fields[0])
+    raise Unsupported('not an Axis: %r' % (v,))
+
+
+@model('ndarray::impl_constructors::<impl ndarray::ArrayBase<S, D>>::zeros')
+def m_nd_zeros(I, a, t, c):
+    sh = a[0]
+    if isinstance(sh, Agg) and sh.kind == 'tuple' and len(sh.fields) == 2:
+        r, cc = I.conc(sh.fields[0]), I.conc(sh.fields[1])
+        return Nd2([[BV(8, 0)] * cc for _ in range(r)], cc)
+    if isinstance(sh, Agg) and sh.kind == 'shape2':
+        r, cc = sh.fields
+        return Nd2([[BV(8, 0)] * cc for _ in range(r)], cc)
+    raise Unsupported('zeros(%r)' % (sh,))
+
+
+@model('ndarray::impl_methods::<impl ndarray::ArrayBase<S, D>>::raw_dim')
+def m_nd_raw_dim(I, a, t, c):
+    n = _nd(I, a[0])
+    return Agg('shape2', 0, [len(n.rows), n.ncols])
+
+
+@model('ndarray::impl_methods::<impl ndarray::ArrayBase<S, D>>::assign')
+def m_nd_assign(I, a, t, c):
+    src = _nd(I, a[1])
+    I.store(a[0], Nd2(src.rows, src.ncols))
+    return UNIT
+
+
+def _ok(v):
+    return Agg('adt:std::result::Result', 0, [v])
+
+
+@model('ndarray::impl_owned_array::<impl ndarray::ArrayBase<ndarray::OwnedRepr<A>, ndarray::Dim<[usize; 2]>>>::push_row')
+def m_nd_push_row(I, a, t, c):
+    n = I.load(a[0])
+    row = _vals(I, a[1])
+    if len(row) != n.ncols:
+        return Agg('adt:std::result::Result', 1, [Opaque('ShapeError')])
+    I.store(a[0], Nd2(n.rows + [row], n.ncols))
+    return _ok(UNIT)
+
+
+@model('ndarray::impl_owned_array::<impl ndarray::ArrayBase<ndarray::OwnedRepr<A>, ndarray::Dim<[usize; 2]>>>::push_column')
+def m_nd_push_column(I, a, t, c):
+    n = I.load(a[0])
+    col = _vals(I, a[1])
+    if len(col) != len(n.rows):
+        return Agg('adt:std::result::Result', 1, [Opaque('ShapeError')])
+    I.store(a[0], Nd2([r + [x] for r, x in zip(n.rows, col)], n.ncols + 1))
+    return _ok(UNIT)
+
+
+@model('std::result::Result::unwrap', 'std::result::Result::expect')
+def m_result_unwrap(I, a, t, c):
+    r = a[0]
+    if isinstance(r, Agg) and r.kind == 'adt:std::result::Result':
+        if r.variant == 0:
+            return r.fields[0]
+        raise Panic('unwrap-err', repr(r.fields[:1]), t.span)
+    raise Unsupported('unwrap of %r' % (r,))
+
+
+@model('ndarray::impl_methods::<impl ndarray::ArrayBase<S, D>>::outer_iter')
+def m_nd_outer_iter(I, a, t, c):
+    n = _nd(I, a[0])
+    return Agg('iter', 0, [[_view1(r) for r in n.rows], 0])
+
+
+@model('ndarray::impl_methods::<impl ndarray::ArrayBase<S, D>>::axis_iter')
+def m_nd_axis_iter(I, a, t, c):
+    n = _nd(I, a[0])
+    ax = _axis(I, a[1])
+    if ax == 0:
+        return Agg('iter', 0, [[_view1(r) for r in n.rows], 0])
+    return Agg('iter', 0, [[_view1([r[j] for r in n.rows]) for j in range(n.ncols)], 0])
+
+
+@model('ndarray::impl_methods::<impl ndarray::ArrayBase<S, D>>::index_axis')
+def m_nd_index_axis(I, a, t, c):
+    n = _nd(I, a[0])
+    ax = _axis(I, a[1])
+    i = I.conc(a[2])
+    if ax == 0:
+        return _view1(n.rows[i])
+    return _view1([r[i] for r in n.rows])
+
+
+@model('ndarray::impl_methods::<impl ndarray::ArrayBase<S, D>>::t')
+def m_nd_t(I, a, t, c):
+    n = _nd(I, a[0])
+    return Nd2([[r[j] for r in n.rows] for j in range(n.ncols)], len(n.rows))
+
+
+@model('ndarray::impl_methods::<impl ndarray::ArrayBase<S, D>>::view')
+def m_nd_view(I, a, t, c):
+    try:
+        return _nd(I, a[0])
+    except Unsupported:
+        return _view1(_vals(I, a[0]))
+
+
+@model('ndarray::impl_2d::<impl ndarray::ArrayBase<S, ndarray::Dim<[usize; 2]>>>::ncols')
+def m_nd_ncols(I, a, t, c):
+    return BV(64, _nd(I, a[0]).ncols)
+
+
+@model('ndarray::impl_2d::<impl ndarray::ArrayBase<S, ndarray::Dim<[usize; 2]>>>::nrows')
+def m_nd_nrows(I, a, t, c):
+    return BV(64, len(_nd(I, a[0]).rows))
+
+
+@model('ndarray::impl_methods::<impl ndarray::ArrayBase<S, D>>::mapv_inplace')
+def m_nd_mapv_inplace(I, a, t, c):
+    n = I.load(a[0])
+    I.store(a[0], Nd2([[I.call_closure(a[1], [x]) for x in r] for r in n.rows], n.ncols))
+    return UNIT
+
+
+@model('ndarray::impl_methods::<impl ndarray::ArrayBase<S, D>>::map')
+def m_nd_map(I, a, t, c):
+    n = _nd(I, a[0])
+    return Nd2([[I.call_closure(a[1], [RefV(Cell(x, 'e'))]) for x in r] for r in n.rows], n.ncols)
+
+
+@model('ndarray::numeric::impl_numeric::<impl ndarray::ArrayBase<S, D>>::sum_axis')
+def m_nd_sum_axis(I, a, t, c):
+    n = _nd(I, a[0])
+    ax = _axis(I, a[1])
+    if ax == 0:
+        sums = [sum(I.conc(r[j]) if isinstance(r[j], BV) else 0 for r in n.rows) for j in range(n.ncols)]
+    else:
+        sums = [sum(I.conc(x) for x in r) for r in n.rows]
+    w = n.rows[0][0].w if n.rows and n.rows[0] and isinstance(n.rows[0][0], BV) else 32
+    return Agg('array', 0, [BV(w, s, signed=True) for s in sums])
+
+
+@model('ndarray::impl_1d::<impl ndarray::ArrayBase<S, ndarray::Dim<[usize; 1]>>>::to_vec')
+def m_nd_to_vec(I, a, t, c):
+    v = a[0]
+    if isinstance(v, Agg) and v.kind == 'array':
+        return v
+    return Agg('array', 0, _vals(I, v))
+
+
+@model('ndarray::arraytraits::<impl std::convert::From<&Slice> for ndarray::ArrayBase<ndarray::ViewRepr<&A>, ndarray::Dim<[usize; 1]>>>::from')
+def m_nd_view_from(I, a, t, c):
+    return _view1(_vals(I, a[0]))
+
+
+@model('ndarray::impl_methods::<impl ndarray::ArrayBase<S, D>>::as_slice')
+def m_nd_as_slice(I, a, t, c):
+    return some(a[0] if isinstance(a[0], RefV) and a[0].win is not None else _view1(_vals(I, a[0])))
+
+
+@model('<std::vec::Vec<T, A> as std::clone::Clone>::clone', '<std::string::String as std::clone::Clone>::clone')
+def m_clone(I, a, t, c):
+    return deref_all(I, a[0])
+
+
+@model('core::slice::<impl [T]>::is_empty')
+def m_slice_is_empty(I, a, t, c):
+    return bv_bool(_slice(I, a[0])[3] == 0)
+
+
+@model('hashbrown::HashMap::reserve', 'std::vec::Vec::reserve')
+def m_reserve(I, a, t, c):
+    return UNIT
+
+
+@model('hashbrown::HashMap::contains_key')
+def m_map_contains_key(I, a, t, c):
+    return bv_bool(_mkey(deref_all(I, a[1])) in deref_all(I, a[0]).d)
+
+
+@model('hashbrown::HashMap::get')
+def m_map_get(I, a, t, c):
+    m = deref_all(I, a[0])
+    k = _mkey(deref_all(I, a[1]))
+    if k in m.d:
+        return some(RefV(m.d[k][1]))
+    return NONE
+
+
+# ---- HashSet<T>: SetV (insertion-ordered dict key -> value)
+class SetV:
+    __slots__ = ('d',)
+
+    def __init__(self, items=()):
+        self.d = {}
+        for x in items:
+            self.d[_skey(x)] = x
+
+    def __repr__(self):
+        return 'Set{%s}' % ', '.join(repr(v) for v in self.d.values())
+
+
+def _skey(v):
+    if isinstance(v, StrV):
+        return ('str', tuple(v.chars))
+    return _mkey(v)
+
+
+@model('hashbrown::HashSet::new')
+def m_set_new(I, a, t, c):
+    return SetV()
+
+
+@model('<hashbrown::HashSet<T, S, A> as std::iter::FromIterator<T>>::from_iter')
+def m_set_from_iter(I, a, t, c):
+    return SetV([deref_all(I, x) if isinstance(x, RefV) else x for x in _iter_items(I, a[0])])
+
+
+@model('hashbrown::HashSet::insert')
+def m_set_insert(I, a, t, c):
+    s = I.load(a[0])
+    k = _skey(a[1])
+    new = k not in s.d
+    if new:
+        s.d[k] = a[1]
+    return bv_bool(new)
+
+
+@model('hashbrown::HashSet::contains')
+def m_set_contains(I, a, t, c):
+    return bv_bool(_skey(deref_all(I, a[1])) in deref_all(I, a[0]).d)
+
+
+@model('hashbrown::HashSet::remove')
+def m_set_remove(I, a, t, c):
+    s = I.load(a[0])
+    k = _skey(deref_all(I, a[1]))
+    had = k in s.d
+    s.d.pop(k, None)
+    return bv_bool(had)
+
+
+@model('hashbrown::HashSet::len')
+def m_set_len(I, a, t, c):
+    return BV(64, len(deref_all(I, a[0]).d))
+
+
+@model('hashbrown::HashSet::is_empty')
+def m_set_is_empty(I, a, t, c):
+    return bv_bool(len(deref_all(I, a[0]).d) == 0)
+
+
+@model('<hashbrown::HashSet<T, S, A> as std::iter::IntoIterator>::into_iter')
+def m_set_into_iter(I, a, t, c):
+    return Agg('iter', 0, [list(deref_all(I, a[0]).d.values()), 0])
+
+
+@model('std::cmp::PartialOrd::le', 'std::cmp::PartialOrd::lt', 'std::cmp::PartialOrd::ge', 'std::cmp::PartialOrd::gt')
+def m_partial_ord(I, a, t, c):
+    if 'log::Level' in (c.full or ''):
+        return bv_bool(False)          # logging is disabled in the abstract runs
+    op = {'le': 'Le', 'lt': 'Lt', 'ge': 'Ge', 'gt': 'Gt'}[c.name.split('::')[-1]]
+    return I.binop(op, deref_all(I, a[0]), deref_all(I, a[1]))
+
+
+@model('std::iter::Iterator::skip')
+def m_skip(I, a, t, c):
+    return Agg('iter', 0, [_iter_items(I, a[0])[I.conc(a[1]):], 0])
+
+
+# ====================================================================== more iterator / Option / Vec adaptors
+def _pred(I, clos, x, by_ref=True):
+    r = I.call_closure(clos, [RefV(Cell(x, 'item')) if by_ref else x])
+    return bool(I.conc(r, 'iterator predicate'))
+
+
+@model('std::iter::Iterator::skip_while')
+def m_skip_while(I, a, t, c):
+    items = _iter_items(I, a[0])
+    i = 0
+    while i < len(items) and _pred(I, a[1], items[i]):
+        i += 1
+    return Agg('iter', 0, [items[i:], 0])
+
+
+@model('std::iter::Iterator::take_while')
+def m_take_while(I, a, t, c):
+    items = _iter_items(I, a[0])
+    i = 0
+    while i < len(items) and _pred(I, a[1], items[i]):
+        i += 1
+    return Agg('iter', 0, [items[:i], 0])
+
+
+@model('std::iter::Iterator::take')
+def m_take(I, a, t, c):
+    return Agg('iter', 0, [_iter_items(I, a[0])[:I.conc(a[1])], 0])
+
+
+@model('std::iter::Iterator::step_by')
+def m_step_by(I, a, t, c):
+    return Agg('iter', 0, [_iter_items(I, a[0])[::I.conc(a[1])], 0])
+
+
+@model('std::iter::Iterator::chain')
+def m_chain(I, a, t, c):
+    return Agg('iter', 0, [_iter_items(I, a[0]) + _iter_items(I, a[1]), 0])
+
+
+@model('std::iter::Iterator::copied', 'std::iter::Iterator::cloned')
+def m_copied(I, a, t, c):
+    return Agg('iter', 0, [[deref_all(I, x) if isinstance(x, RefV) else x for x in _iter_items(I, a[0])], 0])
+
+
+@model('std::iter::Iterator::any')
+def m_any(I, a, t, c):
+    it = I.load(a[0]) if isinstance(a[0], RefV) else a[0]
+    for x in _iter_items(I, it):
+        if _pred(I, a[1], x, by_ref=False):
+            return bv_bool(True)
+    return bv_bool(False)
+
+
+@model('std::iter::Iterator::all')
+def m_all(I, a, t, c):
+    it = I.load(a[0]) if isinstance(a[0], RefV) else a[0]
+    for x in _iter_items(I, it):
+        if not _pred(I, a[1], x, by_ref=False):
+            return bv_bool(False)
+    return bv_bool(True)
+
+
+@model('std::iter::Iterator::position')
+def m_position(I, a, t, c):
+    it = I.load(a[0]) if isinstance(a[0], RefV) else a[0]
+    for i, x in enumerate(_iter_items(I, it)):
+        if _pred(I, a[1], x, by_ref=False):
+            return some(BV(64, i))
+    return NONE
+
+
+@model('std::iter::Iterator::rposition')
+def m_rposition(I, a, t, c):
+    it = I.load(a[0]) if isinstance(a[0], RefV) else a[0]
+    items = _iter_items(I, it)
+    for i in range(len(items) - 1, -1, -1):
+        if _pred(I, a[1], items[i], by_ref=False):
+            return some(BV(64, i))
+    return NONE
+
+
+@model('std::iter::Iterator::find')
+def m_find(I, a, t, c):
+    it = I.load(a[0]) if isinstance(a[0], RefV) else a[0]
+    for x in _iter_items(I, it):
+        if _pred(I, a[1], x):
+            return some(x)
+    return NONE
+
+
+@model('std::iter::Iterator::last')
+def m_last(I, a, t, c):
+    items = _iter_items(I, a[0])
+    return some(items[-1]) if items else NONE
+
+
+@model('std::iter::Iterator::scan')
+def m_scan(I, a, t, c):
+    st = Cell(a[1], 'scan-state')
+    out = []
+    for x in _iter_items(I, a[0]):
+        r = I.call_closure(a[2], [RefV(st), x])
+        if isinstance(r, Agg) and r.kind == 'adt:std::option::Option' and r.variant == 0:
+            break
+        out.append(r.fields[0])
+    return Agg('iter', 0, [out, 0])
+
+
+@model('std::iter::Iterator::for_each')
+def m_for_each(I, a, t, c):
+    for x in _iter_items(I, a[0]):
+        I.call_closure(a[1], [x])
+    return UNIT
+
+
+@model('std::iter::Iterator::filter_map')
+def m_filter_map(I, a, t, c):
+    out = []
+    for x in _iter_items(I, a[0]):
+        r = I.call_closure(a[1], [x])
+        if isinstance(r, Agg) and r.kind == 'adt:std::option::Option' and r.variant == 1:
+            out.append(r.fields[0])
+    return Agg('iter', 0, [out, 0])
+
+
+@model('std::iter::Iterator::max', 'std::iter::Iterator::min')
+def m_iter_max(I, a, t, c):
+    items = [deref_all(I, x) if isinstance(x, RefV) else x for x in _iter_items(I, a[0])]
+    raw = _iter_items(I, a[0])
+    if not items:
+        return NONE
+    vals = [I.conc(x) for x in items]
+    if c.name.endswith('max'):
+        m = max(vals)
+        i = len(vals) - 1 - vals[::-1].index(m)          # last maximum
+    else:
+        i = vals.index(min(vals))                          # first minimum
+    return some(raw[i])
+
+
+@model('std::iter::Iterator::max_by_key', 'std::iter::Iterator::min_by_key')
+def m_iter_max_by_key(I, a, t, c):
+    raw = _iter_items(I, a[0])
+    if not raw:
+        return NONE
+    keys = [I.conc(I.call_closure(a[1], [RefV(Cell(x, 'item'))])) for x in raw]
+    if c.name.endswith('max_by_key'):
+        m = max(keys)
+        i = len(keys) - 1 - keys[::-1].index(m)
+    else:
+        i = keys.index(min(keys))
+    return some(raw[i])
+
+
+@model('std::option::Option::map_or', 'std::option::Option::<T>::map_or')
+def m_opt_map_or(I, a, t, c):
+    o = a[0]
+    if o.variant == 1:
+        return I.call_closure(a[2], [o.fields[0]])
+    return a[1]
+
+
+@model('std::option::Option::map', 'std::option::Option::<T>::map')
+def m_opt_map(I, a, t, c):
+    o = a[0]
+    if o.variant == 1:
+        return some(I.call_closure(a[1], [o.fields[0]]))
+    return NONE
+
+
+@model('std::option::Option::unwrap_or', 'std::option::Option::<T>::unwrap_or')
+def m_opt_unwrap_or(I, a, t, c):
+    return a[0].fields[0] if a[0].variant == 1 else a[1]
+
+
+@model('std::option::Option::unwrap_or_default', 'std::option::Option::<T>::unwrap_or_default')
+def m_opt_unwrap_or_default(I, a, t, c):
+    if a[0].variant == 1:
+        return a[0].fields[0]
+    raise Unsupported('unwrap_or_default of None')
+
+
+@model('std::vec::Vec::truncate')
+def m_vec_truncate(I, a, t, c):
+    v = I.load(a[0])
+    n = I.conc(a[1])
+    if n < len(v.fields):
+        I.store(a[0], Agg('array', 0, v.fields[:n]))
+    return UNIT
+
+
+@model('std::vec::Vec::clear')
+def m_vec_clear(I, a, t, c):
+    I.store(a[0], Agg('array', 0, []))
+    return UNIT
+
+
+@model('std::vec::Vec::pop')
+def m_vec_pop(I, a, t, c):
+    v = I.load(a[0])
+    if not v.fields:
+        return NONE
+    I.store(a[0], Agg('array', 0, v.fields[:-1]))
+    return some(v.fields[-1])
+
+
+@model('std::vec::Vec::insert')
+def m_vec_insert(I, a, t, c):
+    v = I.load(a[0])
+    i = I.conc(a[1])
+    if i > len(v.fields):
+        raise Panic('insert-oob', 'Vec::insert index %d > len %d' % (i, len(v.fields)), t.span)
+    I.store(a[0], Agg('array', 0, v.fields[:i] + [a[2]] + v.fields[i:]))
+    return UNIT
+
+
+@model('core::slice::<impl [T]>::reverse')
+def m_slice_reverse(I, a, t, c):
+    cell, path, s, n = _slice(I, a[0])
+    v = I.load(RefV(cell, path))
+    f = list(v.fields)
+    f[s:s + n] = reversed(f[s:s + n])
+    I.store(RefV(cell, path), Agg('array', 0, f))
+    return UNIT
+
+
+@model('core::slice::<impl [T]>::last')
+def m_slice_last(I, a, t, c):
+    cell, path, s, n = _slice(I, a[0])
+    return some(RefV(cell, path + (s + n - 1,))) if n else NONE
+
+
+@model('core::slice::<impl [T]>::first')
+def m_slice_first(I, a, t, c):
+    cell, path, s, n = _slice(I, a[0])
+    return some(RefV(cell, path + (s,))) if n else NONE
+
+
+@model('core::slice::<impl [T]>::contains')
+def m_slice_contains(I, a, t, c):
+    x = deref_all(I, a[1])
+    return bv_bool(any(deref_all(I, y) == x for y in _vals(I, a[0])))
+
+
+# ---- output sinks: needletail::parser::write_fasta records (id, seq) on the interpreter
+def m_write_fasta(I, a, t, c):
+    if not hasattr(I, 'fasta_out'):
+        I.fasta_out = []
+    I.fasta_out.append((_vals(I, a[0]), _vals(I, a[1])))
+    return _ok(UNIT)
+
+
+SUFFIX_MODELS['needletail::parser::write_fasta'] = m_write_fasta
+
+
+@model('core::str::<impl str>::as_bytes', 'std::string::String::as_bytes')
+def m_as_bytes(I, a, t, c):
+    s = deref_all(I, a[0])
+    if isinstance(s, StrV):
+        return _view1([BV(8, ord(ch)) if isinstance(ch, str) else ch for ch in s.chars])
+    raise Unsupported('as_bytes of %r' % (s,))
+
+
+@model('std::iter::Iterator::try_for_each')
+def m_try_for_each(I, a, t, c):
+    it = I.load(a[0]) if isinstance(a[0], RefV) else a[0]
+    for x in _iter_items(I, it):
+        r = I.call_closure(a[1], [x])
+        if isinstance(r, Agg) and r.kind == 'adt:std::result::Result' and r.variant == 1:
+            return r
+    return _ok(UNIT)
+
+
+@model('ndarray::impl_methods::<impl ndarray::ArrayBase<S, D>>::select')
+def m_nd_select(I, a, t, c):
+    ax = _axis(I, a[1])
+    idx = [I.conc(deref_all(I, x)) for x in _vals(I, a[2])]
+    try:
+        n = _nd(I, a[0])
+    except Unsupported:
+        vals = _vals(I, a[0])                                  # 1-D
+        return Agg('array', 0, [vals[i] for i in idx])
+    if ax == 0:
+        return Nd2([n.rows[i] for i in idx], n.ncols)
+    return Nd2([[r[j] for j in idx] for r in n.rows], len(idx))
+
+
+@model('ndarray::impl_methods::<impl ndarray::ArrayBase<S, D>>::to_owned', 'ndarray::impl_methods::<impl ndarray::ArrayBase<S, D>>::into_owned',
+       '<ndarray::ArrayBase<S, D> as std::clone::Clone>::clone')
+def m_nd_to_owned(I, a, t, c):
+    n = _nd(I, a[0])
+    return Nd2(n.rows, n.ncols)
+
+
+@model('ndarray::impl_methods::<impl ndarray::ArrayBase<S, D>>::column')
+def m_nd_column(I, a, t, c):
+    n = _nd(I, a[0])
+    j = I.conc(a[1])
+    return _view1([r[j] for r in n.rows])
+
+
+@model('ndarray::impl_methods::<impl ndarray::ArrayBase<S, D>>::row')
+def m_nd_row(I, a, t, c):
+    return _view1(_nd(I, a[0]).rows[I.conc(a[1])])
+
+
+@model('ndarray::impl_methods::<impl ndarray::ArrayBase<S, D>>::rows', 'ndarray::impl_methods::<impl ndarray::ArrayBase<S, D>>::genrows')
+def m_nd_rows(I, a, t, c):
+    n = _nd(I, a[0])
+    return Agg('iter', 0, [[_view1(r) for r in n.rows], 0])
+
+
+@model('ndarray::impl_methods::<impl ndarray::ArrayBase<S, D>>::columns')
+def m_nd_columns(I, a, t, c):
+    n = _nd(I, a[0])
+    return Agg('iter', 0, [[_view1([r[j] for r in n.rows]) for j in range(n.ncols)], 0])
+
+
+@model('ndarray::impl_methods::<impl ndarray::ArrayBase<S, D>>::len_of')
+def m_nd_len_of(I, a, t, c):
+    n = _nd(I, a[0])
+    return BV(64, len(n.rows) if _axis(I, a[1]) == 0 else n.ncols)
+
+
+@model('ndarray::impl_methods::<impl ndarray::ArrayBase<S, D>>::dim')
+def m_nd_dim(I, a, t, c):
+    n = _nd(I, a[0])
+    return Agg('tuple', 0, [BV(64, len(n.rows)), BV(64, n.ncols)])
+
+
+@model('core::slice::<impl [T]>::binary_search')
+def m_binary_search(I, a, t, c):
+    vals = [I.conc(deref_all(I, x)) for x in _vals(I, a[0])]
+    x = I.conc(deref_all(I, a[1]))
+    if vals != sorted(vals):
+        raise Unsupported('binary_search on an unsorted slice %r' % (vals,))
+    import bisect
+    i = bisect.bisect_left(vals, x)
+    if i < len(vals) and vals[i] == x:
+        return Agg('adt:std::result::Result', 0, [BV(64, i)])
+    return Agg('adt:std::result::Result', 1, [BV(64, i)])
+
+
+@model('std::result::Result::is_ok')
+def m_res_is_ok(I, a, t, c):
+    return bv_bool(deref_all(I, a[0]).variant == 0)
+
+
+@model('std::result::Result::is_err')
+def m_res_is_err(I, a, t, c):
+    return bv_bool(deref_all(I, a[0]).variant == 1)
+
+
+@model('std::vec::Vec::remove')
+def m_vec_remove(I, a, t, c):
+    v = I.load(a[0])
+    i = I.conc(a[1])
+    if i >= len(v.fields):
+        raise Panic('remove-oob', 'Vec::remove index %d >= len %d' % (i, len(v.fields)), t.span)
+    I.store(a[0], Agg('array', 0, v.fields[:i] + v.fields[i + 1:]))
+    return v.fields[i]
+
+
+@model('std::vec::Vec::retain')
+def m_vec_retain(I, a, t, c):
+    v = I.load(a[0])
+    I.store(a[0], Agg('array', 0, [x for x in v.fields if _pred(I, a[1], x)]))
+    return UNIT
+
+
+@model('core::slice::<impl [T]>::sort', 'core::slice::<impl [T]>::sort_unstable')
+def m_slice_sort(I, a, t, c):
+    cell, path, s, n = _slice(I, a[0])
+    v = I.load(RefV(cell, path))
+    f = list(v.fields)
+    f[s:s + n] = sorted(f[s:s + n], key=lambda x: I.conc(x))
+    I.store(RefV(cell, path), Agg('array', 0, f))
+    return UNIT
+
+
+@model('std::vec::Vec::dedup')
+def m_vec_dedup(I, a, t, c):
+    v = I.load(a[0])
+    out = []
+    for x in v.fields:
+        if not out or not (out[-1] == x):
+            out.append(x)
+    I.store(a[0], Agg('array', 0, out))
+    return UNIT
+
+
+@model('std::vec::Vec::contains')
+def m_vec_contains(I, a, t, c):
+    x = deref_all(I, a[1])
+    return bv_bool(any(deref_all(I, y) == x for y in I.load(a[0]).fields))
+
+
+@model('ndarray::arraytraits::<impl std::ops::Index<I> for ndarray::ArrayBase<S, D>>::index',
+       'ndarray::arraytraits::<impl std::ops::IndexMut<I> for ndarray::ArrayBase<S, D>>::index_mut')
+def m_nd_index(I, a, t, c):
+    r = a[0]
+    if not isinstance(r, RefV):
+        raise Unsupported('ndarray index on a non-reference')
+    idx = a[1]
+    if isinstance(idx, BV):                                   # 1-D view [i]
+        v = I.load(r)
+        while isinstance(v, RefV) and v.win is None and isinstance(I.load(v), RefV):
+            v = I.load(v)
+        view = v if isinstance(v, RefV) else r
+        cell, path, s0, n0 = _slice(I, view)
+        i = I.conc(idx)
+        if i >= n0:
+            raise Panic('ndarray-index', 'index %d out of %d' % (i, n0), t.span)
+        return RefV(cell, path + (s0 + i,))
+    if isinstance(idx, Agg) and len(idx.fields) == 2:
+        i, j = I.conc(idx.fields[0]), I.conc(idx.fields[1])
+    else:
+        raise Unsupported('ndarray index %r' % (idx,))
+    n = I.load(r)
+    if type(n).__name__ != 'Nd2':
+        raise Unsupported('ndarray index into %r' % (n,))
+    if i >= len(n.rows) or j >= n.ncols:
+        raise Panic('ndarray-index', 'index (%d, %d) out of (%d, %d)' % (i, j, len(n.rows), n.ncols), t.span)
+    return RefV(r.cell, r.path + (('nd', i, j),))
+
+
+# ---- ASCII case helpers on u8 / [u8]
+def _upper(I, x):
+    x = deref_all(I, x) if isinstance(x, RefV) else x
+    if isinstance(x, BV) and x.val is not None:
+        return BV(x.w, x.val - 32 if 97 <= x.val <= 122 else x.val)
+    raise Unsupported('to_ascii_uppercase of %r' % (x,))
+
+
+def _lower(I, x):
+    x = deref_all(I, x) if isinstance(x, RefV) else x
+    if isinstance(x, BV) and x.val is not None:
+        return BV(x.w, x.val + 32 if 65 <= x.val <= 90 else x.val)
+    raise Unsupported('to_ascii_lowercase of %r' % (x,))
+
+
+@model('core::num::<impl u8>::to_ascii_uppercase')
+def m_u8_upper(I, a, t, c):
+    return _upper(I, a[0])
+
+
+@model('core::num::<impl u8>::to_ascii_lowercase')
+def m_u8_lower(I, a, t, c):
+    return _lower(I, a[0])
+
+
+@model('core::slice::ascii::<impl [u8]>::make_ascii_uppercase', 'core::slice::ascii::<impl [u8]>::make_ascii_lowercase')
+def m_slice_make_case(I, a, t, c):
+    cell, path, s, n = _slice(I, a[0])
+    v = I.load(RefV(cell, path))
+    f = list(v.fields)
+    fn = _upper if c.name.endswith('uppercase') else _lower
+    f[s:s + n] = [fn(I, x) for x in f[s:s + n]]
+    I.store(RefV(cell, path), Agg('array', 0, f))
+    return UNIT
+
+
+@model('core::slice::ascii::<impl [u8]>::to_ascii_uppercase', 'core::slice::ascii::<impl [u8]>::to_ascii_lowercase')
+def m_slice_to_case(I, a, t, c):
+    fn = _upper if c.name.endswith('uppercase') else _lower
+    return Agg('array', 0, [fn(I, x) for x in _vals(I, a[0])])
+
+
+@model('std::slice::<impl [T]>::to_vec', 'core::slice::<impl [T]>::to_vec', 'alloc::slice::<impl [T]>::to_vec')
+def m_slice_to_vec(I, a, t, c):
+    return Agg('array', 0, list(_vals(I, a[0])))
